@@ -32,7 +32,7 @@ def install_format_stub():
     def _format_stub(obj, format_spec=""):
         with NoTracing():
             if isinstance(obj, (BL.SymbolicInt, BL.SymbolicBool, BL.SymbolicFloat)):
-                return "<sym>"
+                return "<sym:%x>" % id(obj)   # distinct symbolic numbers render differently (names built from ids stay distinct)
             if isinstance(obj, (list, tuple, dict, set)) or type(obj).__name__ in ("ShellMutableSequence", "SymbolicList", "LinearSet", "LinearDict"):
                 return "<container>"   # containers may hold symbolic numbers; message text is outside every claim
         return orig(obj, format_spec)
